@@ -118,7 +118,8 @@ HdrSets == { <<>>, <<H("X-Hdr", <<"h1">>)>>, HdrB, <<H("X-Hdr", <<"a, b", "c">>)
 TrlSets == { <<>>, <<H("X-Trl", <<"t1">>)>>, TrlB, <<H("X-Trl", <<"t1", "t2", "t3">>), H("X-Sig-Bin", <<"/+8">>)>> }
 GenC11Init ==
   \E p \in Protos, k \in Kinds, codec \in {"proto", "json"}, rh \in HdrSets \cup {HdrA}, sh \in HdrSets, st \in TrlSets,
-     o \in {OK, Err(9, "ascii", 0, MetaE, 0), Err(9, "ascii", 0, <<>>, 1)}, nresp \in {0, 1, 2} :
+     o \in {OK, Err(9, "ascii", 0, MetaE, 0), Err(9, "ascii", 0, <<>>, 1), [Err(9, "ascii", 0, MetaE, 0) EXCEPT !.kind = "wrapped"]},
+     nresp \in {0, 1, 2} :
     \E http \in HTTPs(k) :
       /\ (k \in {"unary", "client"} => nresp = 1 /\ o.after = 0)
       /\ InitWith(Mk(p, k, codec, http, <<"none", <<>>>>, 0, <<>>, 0, rh, <<M(1, 3)>>, sh, st,
